@@ -247,6 +247,31 @@ class Kernel:
                     unknown.append(n.pos[1])
         return out, unknown
 
+    def bulk_tails(self):
+        """memcpy/memmove(&out[...], &side_array[side_ptr], ...) tail copies: [(side, line, contiguous-declared)]"""
+        out = []
+        for n in walk(self.f.node.body):
+            if tname(n) == "SimpleCallNode" and tname(n.function) == "NameNode" and n.function.name in ("memcpy", "memmove"):
+                args = n.args if getattr(n, "args", None) is not None else n.arg_tuple.args
+                if len(args) != 3:
+                    out.append((None, n.pos[1], False))
+                    continue
+                src = unwrap(args[1])
+                while tname(src) in ("AmpersandNode", "TypecastNode", "CoerceToTempNode") and hasattr(src, "operand"):
+                    src = unwrap(src.operand)
+                base = getattr(src, "base", None)
+                name = base.name if base is not None and tname(base) == "NameNode" else None
+                side = None
+                for sd, arr in self.arr.items():
+                    if arr == name:
+                        side = sd
+                ctg = False
+                for a in self.f.node.args:
+                    if a.name == name:
+                        ctg = "::1" in str(a.type)
+                out.append((side, n.pos[1], ctg))
+        return out
+
     def _tail_side(self, n):
         c = unwrap(n.condition)
         if tname(c) != "PrimaryCmpNode":
